@@ -46,7 +46,10 @@ def main():
             na.append({"property_id": pid, "reason": REASONS_PENDING})
     m = {
         "version": 1,
-        "setup_cmd": "cd /verif && python3 tools/regen_index.py && cd lean && lake build",
+        # the generated tables are refreshed from /repo first (each C05 / C11 run does that again); the driver must build, the
+        # theorem files are pre-built on a best-effort basis (every check builds and audits its own target and decides
+        # what a failure means)
+        "setup_cmd": "cd /verif && python3 tools/regen_index.py && (cd harness && /venv/bin/python sentinel.py > /dev/null 2>&1 || true) && cd lean && lake build driver && (lake build || true)",
         "hooks": {
             "guard": "VIROCON_VERIF",
             "enable": "no source hooks: the harness observes the real code in-process (subclassing, recording callables, monkey-patching inside the harness process)",
